@@ -7,7 +7,7 @@ import ast
 
 from .. import AnalysisError, flow
 from ..fold import is_unknown
-from ..srcmodel import walk_local, norm, dotted, guards, enclosing_stmt
+from ..srcmodel import walk_local, norm, dotted, guards, enclosing_stmt, literals
 from . import common
 from .layouts import layout_classes
 from .c15 import alias_roots
@@ -67,10 +67,8 @@ def _layout_lock(ctx, cl):
     # the attribute is consulted only when no layout argument was given
     fbs = [n for n in walk_local(p.node) if isinstance(n, ast.Assign) and norm(n) == 'layout = self.layout']
     for n in fbs:
-        gs = [(norm(t).replace('None is layout', 'layout is None').replace('None is not layout', 'layout is not None'), pol)
-              for t, pol in guards(n)]
-        ok_g = any((pol and ('layout is None' in t and 'layout is not None' not in t or t == 'not layout'))
-                   or (not pol and t in ('layout is not None', 'layout')) for t, pol in gs)
+        gs = [(t, pol) for _e, t, pol in literals(guards(n))]
+        ok_g = ('layout is None', True) in gs or ('layout', False) in gs
         bad_g = not gs or not any('layout' in t.replace('self.layout', '') for t, pol in gs)
         ctx.tri(ok_g, bad_g and not ok_g, 'LOCK', 'PLSSDesc.parse: `.layout` is the fallback only when no layout argument is given',
                 detail_bad=f"`layout = self.layout` runs under {gs or 'no condition'}: a layout passed to parse() is "
@@ -80,7 +78,7 @@ def _layout_lock(ctx, cl):
     offs = [n for n in walk_local(p.node) if isinstance(n, ast.Assign) and norm(n) == 'segment = False']
     ok = False
     for n in offs:
-        for t, pol in guards(n):
+        for t, _txt, pol in literals(guards(n)):
             if pol and isinstance(t, ast.Compare) and norm(t.comparators[0]) == 'COPY_ALL' and isinstance(t.ops[0], ast.Eq):
                 pv = flow.provenance(p.node, t.left)
                 ok = 'layout' in flow.prov_params(pv) and 'self.layout' in flow.prov_attrs(pv)
@@ -90,8 +88,13 @@ def _layout_lock(ctx, cl):
                                   f"parse(layout='copy_all') with segmenting on is cut into chunks",
                                   key="LOCK|PLSSDesc.parse|segment-copyall", where=common.loc(p, n))
                     return
-    ctx.check(ok, 'LOCK', 'PLSSDesc.parse: no segmenting for copy_all',
-              detail_bad="`if layout == COPY_ALL: segment = False` is gone", key="LOCK|PLSSDesc.parse|segment-copyall")
+    if offs:
+        ctx.check(ok, 'LOCK', 'PLSSDesc.parse: no segmenting for copy_all',
+                  detail_bad="`segment = False` is not conditioned on the layout being COPY_ALL",
+                  key="LOCK|PLSSDesc.parse|segment-copyall")
+    else:
+        ctx.undecided('LOCK', 'PLSSDesc.parse: no segmenting for copy_all',
+                      "no `segment = False` statement found; the switch-off may be written another way")
     # the fallback precedes the test
     fb = [n for n in walk_local(p.node) if isinstance(n, ast.Assign) and norm(n) == 'layout = self.layout']
     if fb and offs:
